@@ -6,7 +6,9 @@ use crate::ctx::*;
 use crate::exec::*;
 use crate::util::*;
 use crate::Args;
-use std::io::{BufWriter, Write};
+use std::io::Write;
+use std::sync::atomic::{AtomicU64, Ordering};
+use std::sync::Arc;
 use uuid::Uuid;
 
 const HS: &str = "application/vnd.taskchampion.history-segment";
@@ -16,8 +18,34 @@ pub fn main(args: &Args) -> i32 {
     let seed = args.num("seed", 0);
     let first = args.num("first", 0) as usize;
     let n = args.num("n", 4) as usize;
-    let f = std::fs::File::create(args.get("out", "/dev/stdout")).expect("cannot create output file");
-    let mut w = BufWriter::new(f);
+    let out_path = args.get("out", "/dev/stdout");
+    // unbuffered: if overlapping requests never complete (a handler that holds a storage transaction while it awaits its
+    // body blocks the single-threaded executor for good), the watchdog below ends the run and says so in the trace
+    let mut w = std::fs::File::create(&out_path).expect("cannot create output file");
+    let progress = Arc::new(AtomicU64::new(0));
+    {
+        let (progress, out_path) = (progress.clone(), out_path.clone());
+        std::thread::spawn(move || {
+            let mut last = (0u64, std::time::Instant::now());
+            loop {
+                std::thread::sleep(std::time::Duration::from_millis(500));
+                let p = progress.load(Ordering::SeqCst);
+                if p == u64::MAX {
+                    return;
+                }
+                if p != last.0 {
+                    last = (p, std::time::Instant::now());
+                } else if last.1.elapsed().as_secs() >= 30 {
+                    if let Ok(mut f) = std::fs::OpenOptions::new().append(true).open(&out_path) {
+                        let _ = writeln!(f, "# i=9999 op=deadlock");
+                        let _ = writeln!(f, "xcmp deadlock overlap => the overlapping requests did not complete within 30 s");
+                        let _ = writeln!(f, "end h=0 dead=1");
+                    }
+                    std::process::exit(0);
+                }
+            }
+        });
+    }
     actix_rt::System::new().block_on(async {
         for hi in first..first + n {
             let mut r = Rng::new(seed.wrapping_mul(9_000_011).wrapping_add(hi as u64));
@@ -52,7 +80,9 @@ pub fn main(args: &Args) -> i32 {
                     futs.push((sut.call)(spec.clone()));
                     specs.push(spec);
                 }
+                progress.fetch_add(1, Ordering::SeqCst);
                 let obs = futures::future::join_all(futs).await;
+                progress.fetch_add(1, Ordering::SeqCst);
                 tokio::time::resume();
                 let now = unix_now();
                 for (ci, (spec, o)) in specs.iter().zip(obs.iter()).enumerate() {
@@ -92,6 +122,7 @@ pub fn main(args: &Args) -> i32 {
             writeln!(w, "end h={hi} dead=0").unwrap();
         }
     });
+    progress.store(u64::MAX, Ordering::SeqCst);
     w.flush().unwrap();
     0
 }
